@@ -6,8 +6,8 @@ optional pre-existing PS/HP phase, decoy multi-ALT / duplicate records with phas
   (plus: generator-written phased VCFs with interleaved / nested phase sets as the phase input of run Q and as in-process
    input of the real `phased_blocks_as_reads` — whatshap's own outputs only ever have contiguous sets)
 
-  A = phase(in, tag1)   B = phase(in, tag2)   C = phase(A, tag2 [, --sample subset])   U = unphase(C)
-  D = phase(U, tag1)    Q = phase(in, phase input = A only)            (tag2 = the other tag)
+  A = phase(in, tag1)   B = phase(in, tag2)   C = phase(A, tag2 [, --sample subset] [, --chromosome first])   U = unphase(C)
+  D = phase(U, tag1)    E = phase(C, tag1)    Q = phase(in, phase input = A only)            (tag2 = the other tag)
 
 Oracle on every phase output, per target sample (independent decoder on the pysam-parsed records, expected
 phase from the trace): every decodable phase statement is the one this run wrote and every written one decodes
@@ -151,7 +151,7 @@ class Hist:
         self.fails.append(key)
         self.ctx.fail(f"[{step}] {what}", self.case, key=key)
 
-    def phase(self, name, variant_vcf, phase_inputs, tag, fa, samples=None):
+    def phase(self, name, variant_vcf, phase_inputs, tag, fa, samples=None, chroms=None):
         o = self.opts
         out = os.path.join(self.d, name + ".vcf")
         a = ["phase", "-o", out, "--tag", tag]
@@ -164,6 +164,8 @@ class Hist:
             a += ["--only-snvs"]
         for s in samples or []:
             a += ["--sample", s]
+        for c in chroms or []:
+            a += ["--chromosome", c]
         rc, so, se, trace = R.run_whatshap(self.ctx, a + [variant_vcf] + phase_inputs, trace=os.path.join(self.d, name + ".trace"))
         self.ctx.evaluated()
         if rc != 0:
@@ -175,7 +177,7 @@ class Hist:
             else:
                 self.ctx.observe("clean command-line error: " + last[:80])
             return None
-        return {"name": name, "out": out, "trace": trace, "tag": tag, "in": variant_vcf, "targets": samples}
+        return {"name": name, "out": out, "trace": trace, "tag": tag, "in": variant_vcf, "targets": samples, "chroms": chroms}
 
     def check_output(self, run, samples):
         """round trip / no stale phase / no mixed encoding per target sample; returns {sample: decoded map} or None"""
@@ -190,6 +192,21 @@ class Hist:
         elig = eligible_first(recs, o["only_snvs"])
         exp = expected_phases(run["trace"])
         targets = run["targets"] or samples
+        rin = None
+        if run.get("chroms"):
+            # a chromosome that --chromosome did not request is "left unchanged": there no sample is a target of this run, and
+            # what decodes must be what the run's input file says (for every sample)
+            _, _, rin = R.load_vcf(run["in"])
+            if len(rin) != len(recs):
+                self.fail("the output has another number of records than the input", "record-count", name)
+                return None
+            for s in samples:
+                si = samples.index(s)
+                for ri, ro in zip(rin, recs):
+                    if ri["chrom"] not in run["chroms"] and indep_decode(ri, si) != indep_decode(ro, si):
+                        self.fail(f"sample {s} {ri['chrom']}:{ri['pos'] + 1}: chromosome not requested by --chromosome, but the phase "
+                                  f"information changed from {indep_decode(ri, si)} to {indep_decode(ro, si)}", "unrequested-chrom-changed", name)
+                        return None
         decoded = {}
         reqs, meta = [], []
         for s in targets:
@@ -198,6 +215,10 @@ class Hist:
             bad = None
             for i, r in enumerate(recs):
                 hp, gp = indep_decode(r, si)
+                if run.get("chroms") and r["chrom"] not in run["chroms"]:
+                    if i in elig:
+                        dec[(r["chrom"], r["pos"])] = gp if gp is not None else hp
+                    continue
                 want = exp.get(s, {}).get((r["chrom"], r["pos"])) if i in elig else None
                 if hp is not None and gp is not None and bad is None:
                     bad = ("mixed-encoding", f"sample {s} {r['chrom']}:{r['pos'] + 1}: the call carries HP ({hp}) and a phased GT/PS ({gp}) at once")
@@ -285,8 +306,19 @@ def run_case(ctx, case, n):
     if decA is not None and any(len(v) >= 2 for s in samples for v in blocks_of(decA[s]).values()):
         ctx.nontrivial((case["gen_seed"], json.dumps(o, sort_keys=True), json.dumps(case["vcf"], sort_keys=True)))
     # re-phase the phased file with the other tag
-    C = h.phase("C", A["out"], [bam], tag2, fa, samples=subset) if A and decA is not None else None
+    contigs = list(sc.contigs)
+    csub = contigs[:1] if (o.get("chrom_subset") and len(contigs) > 1) else None
+    ctx.dist("hist_C", ("samples" if subset else "all") + "/" + ("chrom1" if csub else "all") + ("/noreads" if case["vcf"].get("noreads") else ""))
+    C = h.phase("C", A["out"], [bam], tag2, fa, samples=subset, chroms=csub) if A and decA is not None else None
     decC = h.check_output(C, samples) if C else None
+    if C and decC is not None and o.get("back"):
+        # tag1 -> tag2 -> tag1 without unphase in between (C may have re-phased only some samples / chromosomes: the file then
+        # carries both encodings, in different samples or chromosomes)
+        E = h.phase("E", C["out"], [bam], tag1, fa)
+        decE = h.check_output(E, samples) if E else None
+        if decE is not None and decA is not None and not o["distrust"] and decE != decA and json.dumps(E["trace"], sort_keys=True) == json.dumps(A["trace"], sort_keys=True):
+            h.fail("phase(tag1) -> re-phase(tag2) -> re-phase(tag1) decodes differently from the first phasing although the solver result is identical",
+                   "history-differs", "E")
     D = None
     if C and decC is not None:
         rc, so, se, _ = R.run_whatshap(ctx, ["unphase", C["out"]])
